@@ -12,6 +12,8 @@ import YowsupVerif.Drv.Reg
 import YowsupVerif.Drv.Config
 import YowsupVerif.Drv.Iq
 import YowsupVerif.Drv.Routing
+import YowsupVerif.Drv.Life
+import YowsupVerif.Drv.PreKeys
 open Yow Yow.Drv
 
 structure DrvState where
@@ -20,12 +22,16 @@ structure DrvState where
   locks : LocksSt := {}
   store : Yow.Store.Db := Yow.Store.empty
   iq : Yow.Iq.St := Yow.Iq.init
+  life : Yow.Life.St := {}
+  pk : PkSt := {}
 
 def step (s : DrvState) (line : String) : DrvState × String :=
   match (line.splitOn " ").filter (· ≠ "") with
   | "seg" :: rest => let r := segStep s.seg rest; ({ s with seg := r.1 }, r.2)
   | "coder" :: rest => (s, coderStep rest)
   | "iq" :: rest => let r := iqStep s.iq rest; ({ s with iq := r.1 }, r.2)
+  | "pk" :: rest => let r := pkStep s.pk rest; ({ s with pk := r.1 }, r.2)
+  | "life" :: rest => let r := lifeStep s.life rest; ({ s with life := r.1 }, r.2)
   | "route" :: rest => (s, routingStep rest)
   | "cfg" :: rest => (s, configStep rest)
   | "reg" :: rest => (s, regStep rest)
